@@ -38,6 +38,7 @@ cvars == <<start, d0, cat, dim, w, steps>>
 
 ViewKeepD == {"call0", "callrng", "callall", "rotated", "unrotated", "reversed", "sliced", "strided", "dropped", "taked",
               "reindexed", "blocked", "stenciled", "range", "sliced3",
+              "transformed_ref",   \* element_transformed(f) with f returning a reference to (part of) the element: still the elements
               "addrderef",     \* *(&x): through the pointer-to-view and back
               "rebuilt"}       \* subarray<T, D>(x.begin(), x.end()): a view re-assembled from its iterators
 ViewNeeds2KeepDMore == {"reindexed2"}
@@ -85,6 +86,8 @@ KNext ==
   /\ \E s \in AllSteps :
        LET n == Succ(cat, dim, s) IN
        /\ n.cat # "none"
+       \* a function taking T& cannot be applied to read-only elements (a hard error, not a rejection the detection idiom can see)
+       /\ (s = "transformed_ref" => w)
        /\ cat' = n.cat /\ dim' = n.dim
        /\ w' = (w /\ s \notin ConstForcingSteps)
        /\ steps' = Append(steps, s)
